@@ -196,6 +196,26 @@ fn process_inner(case: &Value) -> Vec<Value> {
     } else if let Some(f) = case.get("src_file") {
         render_ev["src_file"] = f.clone();
     }
+    if let Some(t) = &gen_tree {
+        let toks = render::tokens(t);
+        render_ev["ntok"] = json!(toks.len());
+        let class = |s: &str| -> String {
+            let c = s.chars().next().unwrap_or(' ');
+            if c.is_ascii_digit() { "num".into() }
+            else if c == '"' || c == '\'' { "str".into() }
+            else if c.is_alphabetic() || c == '_' {
+                if ["and","break","do","else","elseif","end","false","for","function","goto","if","in","local","nil","not","or","repeat","return","then","true","until","while","continue"].contains(&s) { s.to_string() } else { "name".into() }
+            } else { s.to_string() }
+        };
+        let ctx: Vec<Value> = layout.comments.iter().map(|c| {
+            let prev = if c.slot > 0 { toks.get(c.slot - 1).map(|t| class(&t.text)).unwrap_or_default() } else { "BOF".into() };
+            let next = toks.get(c.slot).map(|t| class(&t.text)).unwrap_or_else(|| "EOF".into());
+            json!({"prev": prev, "next": next, "kind": c.kind, "in_range": c.slot <= toks.len()})
+        }).collect();
+        if !ctx.is_empty() {
+            render_ev["slot_ctx"] = json!(ctx);
+        }
+    }
     if let Some(preds) = case.get("meta").and_then(|m| m.get("pred")).and_then(|p| p.as_array()) {
         let pc: Vec<Value> = preds.iter().filter_map(|p| serde_json::from_value::<Node>(p.clone()).ok()).map(|n| serde_json::to_value(canon_tree(&n)).unwrap()).collect();
         render_ev["meta"]["pred_c"] = json!(pc);
@@ -244,25 +264,15 @@ fn outcome_key(o: &Outcome) -> String {
 }
 
 /// Expand case.sweep (option -> list of values, or "all" for column_width) into concrete configs.
+/// With column_width = "all", every combination of the other axes gets its own width range
+/// 1..=fit+1, where fit is the widest line of that combination's output at unlimited width.
 fn expand_sweep(src: &str, cfg: &Value, sweep: &Value, range: Option<Range>) -> Vec<(Value, Config, Value)> {
     let mut axes: Vec<(String, Vec<Value>)> = Vec::new();
+    let mut all_widths = false;
     if let Some(m) = sweep.as_object() {
         for (k, v) in m {
             if k == "column_width" && v.as_str() == Some("all") {
-                // measure the widest line at unlimited width
-                let mut c = cfg.clone();
-                c["column_width"] = json!(100000);
-                let mut fit = 40usize;
-                if let Ok(pc) = parse_cfg(&c) {
-                    if let (Outcome::Ok(s), _) = run_format(src, pc, range, false) {
-                        fit = s.lines().map(|l| l.chars().map(|ch| if ch == '\t' { 4 } else { 1 }).sum::<usize>()).max().unwrap_or(1);
-                    }
-                }
-                let top = fit + 1;
-                let mut ws: Vec<usize> = if top <= 140 { (1..=top).collect() } else { (1..=top).step_by(top / 100 + 1).chain([top - 1, top]).collect() };
-                ws.sort();
-                ws.dedup();
-                axes.push((k.clone(), ws.into_iter().map(|w| json!(w)).collect()));
+                all_widths = true;
             } else if let Some(a) = v.as_array() {
                 axes.push((k.clone(), a.clone()));
             }
@@ -281,6 +291,33 @@ fn expand_sweep(src: &str, cfg: &Value, sweep: &Value, range: Option<Range>) -> 
                     c2[&k] = v.clone();
                 }
                 l2[&k] = v.clone();
+                next.push((c2, l2));
+            }
+        }
+        out = next;
+    }
+    if all_widths {
+        let mut next = Vec::new();
+        for (c, l) in &out {
+            let mut cw = c.clone();
+            cw["column_width"] = json!(100000);
+            let mut fit = 40usize;
+            if let Ok(pc) = parse_cfg(&cw) {
+                if let (Outcome::Ok(s), _) = run_format(src, pc, range, false) {
+                    fit = s.lines().map(|l| l.chars().map(|ch| if ch == '\t' { 4 } else { 1 }).sum::<usize>()).max().unwrap_or(1);
+                }
+            }
+            // the input's own widest line matters too (decisions taken on the input text)
+            let fit_in = src.lines().map(|l| l.chars().map(|ch| if ch == '\t' { 4 } else { 1 }).sum::<usize>()).max().unwrap_or(1);
+            let top = fit.max(fit_in) + 1;
+            let mut ws: Vec<usize> = if top <= 140 { (1..=top).collect() } else { (1..=top).step_by(top / 100 + 1).chain([top - 1, top]).collect() };
+            ws.sort();
+            ws.dedup();
+            for w in ws {
+                let mut c2 = c.clone();
+                let mut l2 = l.clone();
+                c2["column_width"] = json!(w);
+                l2["column_width"] = json!(w);
                 next.push((c2, l2));
             }
         }
